@@ -13,6 +13,26 @@ from harness import adapter
 from harness.adapter import _bdd
 
 
+LAST = [None]     # the trace being recorded (so that a driver that dies can hand it over)
+
+
+def salvage(exc):
+    """A driver died while driving the real code: return the partial trace,
+    ended by an abort event (judged by TLC like any other: clause harness.abort)."""
+    tr = LAST[0]
+    if tr is None:
+        return None
+    try:
+        post = adapter.snap(tr.bdd, tr.ext, tr.names, tr.rng)
+    except Exception:
+        post = tr.events[-1]['post']
+    tr.events.append(dict(op='abort', a=dict(error=type(exc).__name__, text=str(exc)[:200]),
+                          ret=0, exc=type(exc).__name__, pre=len(tr.events), expect_ok=True,
+                          post=post))
+    LAST[0] = None
+    return tr
+
+
 class Trace:
     """One recorded trace (a forest: each event names its pre-state)."""
 
@@ -26,6 +46,7 @@ class Trace:
         self.events = list()
         self.rng = random.Random(seed)
         self.meta = meta or dict()
+        LAST[0] = self
         self.cur = 0           # index (1-based) of the event whose post is current
         self._emit('init', dict(), 0, '', pre=1)
 
